@@ -78,6 +78,72 @@ class GdbShaped(_Base):
         return dict(dialect='gdb-shaped', specs=specs)
 
 
+class FreshProcess(_Base):
+    """what a line says about an object must not depend on which other lines were displayed before it: the history is shown
+    by a fresh main.py process once in full and once behind a filter that hides earlier incarnations; every line of the
+    filtered run must read exactly as in the full run, and the full run must read as the model says"""
+    name = 'fresh-process'
+    kind = 'given'
+
+    def examples(self, tier):
+        return 36 if tier == 'quick' else 14 * 150
+
+    def gen(self, d, tier):
+        prof = dict(reuse=0.95, server_reuse=0.8, weights=dict(deep=30, message=30, delete=16, bind=8, server_event=12, sync=4))
+        specs = histgen.history(d, nconn=d.int(1, 2), nmsg=d.int(12, 45), profile=prof)
+        names = sorted({m['name'] for m in specs[len(specs) // 2:]})
+        types = sorted({m['iface'] for m in specs[len(specs) // 2:]})
+        flt = d.choice(['.' + d.choice(names), d.choice(types), d.choice(types) + ', .' + d.choice(names), '* ! .sync, .delete_id', '.destroyed'])
+        return dict(dialect=d.choice(['new', 'old']), specs=specs, filter=flt)
+
+    def execute(self, case):
+        import re
+        from .. import cli, wire, session
+        res = Result()
+        res.evals = 0
+        specs, dialect = case['specs'], case.get('dialect', 'new')
+        text = ''.join(wire.render(m, dialect) + '\n' for m in specs)
+        with cli.Scratch() as sc:
+            log = sc.write('h.log', text)
+            rc_a, out_a, err_a = cli.run_main(['-C', '-l', log], stdin=b'q\n')
+            rc_f, out_f, err_f = cli.run_main(['-C', '-l', log, '-f', case['filter']], stdin=b'q\n')
+        if rc_a is None or rc_f is None:
+            res.label('timeout(inconclusive)')
+            self.finish(case, res)
+            return res
+        if rc_a != 0 or rc_f != 0:
+            res.bad('fresh-process:exit-status', 'full %r filtered %r: %r' % (rc_a, rc_f, (err_a + err_f)[-300:]))
+        body = lambda out: [mm.group(2) + ': ' + mm.group(3) for mm in (session.MSG_LINE.match(l) for l in out.decode('utf-8', 'replace').split('\n')) if mm]
+        full, filt = body(out_a), body(out_f)
+        # the full run against the model (labels of every mention)
+        W = model.MWorld()
+        recs = [W.step(m) for m in specs]
+        if len(full) != len(recs):
+            res.bad('fresh-process:line-count', '%d lines shown for %d messages' % (len(full), len(recs)))
+        else:
+            for l, rec in zip(full, recs):
+                res.evals += 1
+                rx = re.escape(rec['conn'].name + ': ') + tracker.expected_line_regex(rec, dialect)
+                if not re.fullmatch(rx, l):
+                    res.bad('fresh-process:rendered-line', 'shown %r, expected to match %r' % (l, rx))
+                    break
+        # the filtered run: a subsequence of the full run, line for line identical
+        pos = 0
+        for l in filt:
+            res.evals += 1
+            try:
+                pos = full.index(l, pos) + 1
+            except ValueError:
+                res.bad('fresh-process:filtered-line-reads-differently', 'with -f %r the line %r appears; the full run has no such line (there: %r)' % (
+                    case['filter'], l, [x for x in full if x.split('(')[0].split('@')[0] == l.split('(')[0].split('@')[0]][:3]))
+                break
+        res.count('filtered-lines-compared', len(filt))
+        self.finish(case, res)
+        res.nontrivial = res.nontrivial and 0 < len(filt) < len(full)
+        if 0 < len(filt) < len(full): res.label('filter-hides-some')
+        return res
+
+
 class C02(Prop):
     id = 'C02'
     rule = ('Hypothesis rule-based machine: rules = step kinds (protocol message, delete_id, registry bind, server-created object, sync) on 1-3 '
@@ -85,10 +151,12 @@ class C02(Prop):
             'after every step target/arguments/delete_id subject, the full object table and the labels on the rendered line are compared. '
             'deep-reuse: generated histories driving one id through >= 27 incarnations. gdb-shaped: histories handed to the connection manager the way '
             'the GDB backend builds messages (sent targets without interface). non-trivial = a history in which an object of generation '
-            '>= 1 is mentioned after its creation; distinct by SHA-1 of the spec list.')
+            '>= 1 is mentioned after its creation; distinct by SHA-1 of the spec list. Histories include messages on objects never seen created (a log that starts '
+            'mid-session): they stay unresolved, what they create exists. fresh-process: reuse-heavy histories shown by a fresh main.py process in full and behind a '
+            'filter; the full run is compared with the model line by line, every filtered line must read exactly as in the full run.')
     assumptions = ['well-formed histories as constructed by histgen (client ids reused only after delete_id)',
                    'reference model of DESIGN appendix B; enum labels and times are excluded here (C07, C16)']
-    stages = [Machine(), DeepReuse(), GdbShaped()]
+    stages = [Machine(), DeepReuse(), GdbShaped(), FreshProcess()]
 
 
 PROP = C02()
